@@ -421,6 +421,9 @@ def main() -> None:  # noqa: C901
     chk.assume("INTEGER overflow not modelled; years restricted to 1000..9998 (4-digit rendering)")
     chk.assume("dataset-level time operators (fill_time_series, flow_to_stock, stock_to_flow, Date timeshift frequency "
                "inference) and the Python twins in DataTypes/TimeHandling.py are NOT covered by this check")
+    chk.assume("bounded native search (vc.sqlnative; every period / day of 1900..2100 through the real DuckDB) is only the "
+               "last resort of an obligation the solver leaves undecided: its disagreements are violations, its silence "
+               "proves nothing (the obligation stays undecided)")
     chk.assume("macro arguments are evaluated by value (DuckDB expands macros by name; differs only if an unused "
                "argument would raise)")
     chk.trust("sqlglot 30 parse of the macro files; z3 5.1 / cvc5 1.0.3 linear integer arithmetic with div/mod by constants")
